@@ -59,6 +59,9 @@ def build(d):
         return [build(x) for x in d["v"]]
     if t == "dict":
         return {k: build(x) for k, x in d["v"].items()}
+    if t == "nd" and "n" in d:
+        # compact form: n elements 0,1,2,... (mod 100) - for arrays whose *size class* matters
+        return (np.arange(d["n"]) % 100).astype(d["dtype"])
     if t == "nd":
         vals = [(_flt(x) if d["dtype"].startswith("float") else x) for x in d["v"]]
         return np.array(vals, dtype=d["dtype"])
